@@ -213,6 +213,21 @@ def _display_props(ctx: Ctx, ci) -> Set[str]:
     bodies = {n: SUMMARIZER.summarize(m.node) for n, m in members.items()}
     seeds = {"_row_order_signed_indexes", "_column_order_signed_indexes", "_row_order_bogus_ids"}
     disp |= seeds & set(members)
+    # plain helper METHODS that hand back an assembled value (`_columns_vector_or_cell_bases(marginal, name)` returning
+    # `self._assemble_marginal(marginal)`): a call of one is an assembler call
+    methods = {n: m for c in reversed(ci.mro) for n, m in c.members.items() if m.kind in ("method", "staticmethod", "classmethod") and n.startswith("_") and n not in ("_assemble_matrix", "_assemble_vector", "_assemble_marginal")}
+    asm_methods: Set[str] = set()
+    grew = True
+    while grew:
+        grew = False
+        for n, m in methods.items():
+            if n in asm_methods:
+                continue
+            t = ast.unparse(m.node)
+            if any(a + "(" in t for a in ASSEMBLERS) or any(f"self.{x}(" in t for x in asm_methods):
+                asm_methods.add(n)
+                grew = True
+    assemblers_ext = tuple(ASSEMBLERS) + tuple(f"self.{x}" for x in sorted(asm_methods))
     # the public order METHODS hand out the same vectors
     disp |= {n for c in ci.mro for n, m in c.members.items() if n in ("row_order", "column_order") and m.kind == "method"}
     while changed:
@@ -221,7 +236,7 @@ def _display_props(ctx: Ctx, ci) -> Set[str]:
             if n in disp:
                 continue
             t = u(body)
-            hit = any(a + "(" in t for a in ASSEMBLERS) or any(f"self.{d}" in _self_reads(body) for d in disp)
+            hit = any(a + "(" in t for a in assemblers_ext) or any(f"self.{d}" in _self_reads(body) for d in disp)
             if hit:
                 disp.add(n)
                 changed = True
@@ -509,37 +524,40 @@ def pairing(ctx: Ctx):
         ctx.check_expr("pairing", f"{CP}::_Slice.{prop}", e, f"tuple((i for i, {v} in enumerate({order}) if {v} < 0))", "display positions whose signed index is negative")
     e = expand(ctx.repo, st, "inserted_row_idxs", stop=lambda m: True)
     ctx.check_expr("pairing", f"{CP}::_Strand.inserted_row_idxs", e, f"tuple((i for i, row_idx in enumerate({ROW_ORD}) if row_idx < 0))")
-    for prop, helper, dim, order in (
-        ("derived_row_idxs", "_derived_element_idxs", "self._rows_dimension", ROW_ORD),
-        ("derived_column_idxs", "_derived_element_idxs", "self._dimensions[1]", COL_ORD),
-        ("diff_row_idxs", "_diff_element_idxs", "self._rows_dimension", ROW_ORD),
-        ("diff_column_idxs", "_diff_element_idxs", "self._dimensions[1]", COL_ORD),
+    from .common import positional_args
+
+    helpers_found = {}
+    for prop, kind, dim, order in (
+        ("derived_row_idxs", "derived", "self._rows_dimension", ROW_ORD),
+        ("derived_column_idxs", "derived", "self._dimensions[1]", COL_ORD),
+        ("diff_row_idxs", "diff", "self._rows_dimension", ROW_ORD),
+        ("diff_column_idxs", "diff", "self._dimensions[1]", COL_ORD),
     ):
         e = expand(ctx.repo, sl, prop, stop=lambda m: True)
-        ctx.check_expr("pairing", f"{CP}::_Slice.{prop}", e, f"self.{helper}({dim}, {order})", "dimension and order vector of the same orientation")
+        where = f"{CP}::_Slice.{prop}"
         ctx.count("label/code pairings")
-    b = {"dimension": ast.Name(id="dimension", ctx=ast.Load()), "order": ast.Name(id="order", ctx=ast.Load())}
-    m = ctx.repo.lookup(sl, "_diff_element_idxs")
-    body = SUMMARIZER.summarize(m.node, b)
-    ctx.check_expr(
-        "position-renumbering",
-        f"{CP}::_Slice._diff_element_idxs",
-        body,
-        "tuple(np.where(np.array([False] * len(dimension.valid_elements) + [e.is_difference for e in dimension.subtotals])[order])[0])",
-        "position-valued outputs are the payload flags (elements, then subtotals) re-indexed by the display order",
-    )
-    m = ctx.repo.lookup(sl, "_derived_element_idxs")
-    body = SUMMARIZER.summarize(m.node, b)
-    ctx.check_expr(
-        "position-renumbering",
-        f"{CP}::_Slice._derived_element_idxs",
-        body,
-        [
+        # `self.<private helper>(<dimension>, <order>)`, whatever the helper and its parameters are called, keywords bound
+        callee = ctx.repo.lookup(sl, e.func.attr) if isinstance(e, ast.Call) and isinstance(e.func, ast.Attribute) and u(e.func.value) == "self" else None
+        args = positional_args(ctx, e, callee) if callee is not None else None
+        if args is None or len(args) != 2:
+            ctx.undecided("pairing", where, u(e)[:120], f"self.<helper>({dim}, {order})")
+            continue
+        got = [u(a_) for a_ in args]
+        ctx.ob("pairing", where, got, [dim, order], got == [dim, order], "dimension and order vector of the same orientation")
+        helpers_found.setdefault(kind, callee)
+    specs = {
+        "diff": ["tuple(np.where(np.array([False] * len(dimension.valid_elements) + [e.is_difference for e in dimension.subtotals])[order])[0])"],
+        "derived": [
             "tuple(np.where(np.array([e.derived for e in dimension.valid_elements] + [False] * len(dimension.valid_elements))[order])[0])",
             "tuple(np.where(np.array([e.derived for e in dimension.valid_elements] + [False] * len(dimension.subtotals))[order])[0])",
         ],
-        "flags of elements then (False) of subtotals, re-indexed by the order (the tail extent is immaterial: a dimension with derived elements has no subtotals)",
-    )
+    }
+    for kind, m in helpers_found.items():
+        params = [p_ for p_ in m.params if p_ not in ("self", "cls")]
+        b = {params[0]: ast.Name(id="dimension", ctx=ast.Load()), params[1]: ast.Name(id="order", ctx=ast.Load())}
+        body = SUMMARIZER.summarize(m.node, b)
+        ctx.check_expr("position-renumbering", f"{CP}::_Slice.{m.name}", body, specs[kind],
+                       "position-valued outputs are the payload flags (elements, then subtotals) re-indexed by the display order (for derived elements the tail extent is immaterial: a dimension with derived elements has no subtotals)")
     for prop, want in (
         ("derived_row_idxs", f"tuple(np.where(np.array([e.derived for e in self._rows_dimension.valid_elements] + [False] * len(self._rows_dimension.subtotals))[{ROW_ORD}])[0])"),
         ("diff_row_idxs", f"tuple(np.where(np.array([False] * len(self._rows_dimension.valid_elements) + [e.is_difference for e in self._rows_dimension.subtotals])[{ROW_ORD}])[0])"),
